@@ -542,7 +542,7 @@ fn spelling_matrix(ctx: &mut Ctx) -> Vec<Attack> {
     let auds = ["https://verifier.example.org", "https://verifier.example.org/", "https://verifier.example.org//", "https://VERIFIER.example.org", "HTTPS://verifier.example.org", "https://verifier.example.org:443",
                 "https://verifier.example.org/#", "https://verifier.example.org/?", "https://verifier.example.org.", " https://verifier.example.org", "https://verifier.example.org ", "http://verifier.example.org",
                 "verifier.example.org", "https://verifier.example.org/a/..", "https://verifier.example.org/%2F", "did:web:verifier.example.org", "did:web:verifier.example.org/", "urn:v:1", "urn:v:1/", "x", "x/", "", "/"];
-    let nonces = ["n-0123456789", "n-0123456789 ", "N-0123456789", "n-0123456789\n", "n-012345678", "n-01234567890", "", " ", "0", "00", "n-0123456789/", "n\u{2d}0123456789", "1234", "1234.0", "null"];
+    let nonces = ["n-0123456789", "n-0123456789 ", "N-0123456789", "n-0123456789\n", "n-012345678", "n-01234567890", "", " ", "0", "00", "n-0123456789/", "n\u{2010}0123456789", "1234", "1234.0", "null"];
     let mut out = vec![];
     let d = b64_json(&json!(["c2FsdC1mb3ItbWF0cml4", "given_name", "Erika"]));
     let every = ctx.tier == Tier::Thorough;
